@@ -94,7 +94,13 @@ func Verbose() { verboseOn = true; syslog.SetLogger(FmtLogger{}) }
 
 // VerboseQuiet installs the FmtLogger whose outcomes are those of Quiet(): everything is formatted, nothing is printed,
 // Panic / Panicf do not panic.  Call it once at process start (ReadInput does, on the `verbose` flag of the input).
-func VerboseQuiet() { verboseOn = true; syslog.SetLogger(FmtLogger{NoPanic: true}) }
+func VerboseQuiet() {
+	verboseOn = true
+	syslog.SetLogger(FmtLogger{NoPanic: true})
+	if os.Getenv("VERIF_HX_TRACE") == "1" { // diagnostics: which processes of a driver run went verbose
+		fmt.Fprintf(os.Stderr, "@@HXVERBOSE pid=%d args=%d\n", os.Getpid(), len(os.Args))
+	}
+}
 
 // IsVerbose: has a formatting logger been installed in this process?
 func IsVerbose() bool { return verboseOn }
